@@ -2,6 +2,7 @@ package checks
 
 import (
 	"fmt"
+	"github.com/nuetzliches/hookaido/verifharness/leasecheck"
 	"time"
 
 	"github.com/nuetzliches/hookaido/internal/queue"
@@ -113,4 +114,9 @@ func C14(c *vlib.Ctx) {
 	c14Store(c)
 	c14Big(c)
 	c14Admin(c)
+	// "voiding the lease of a leased message they cancel", with the lease holders
+	// settling concurrently (batch forms; on SQLite the operator works through a
+	// second handle on the same file, as hookaido mcp does): the lease-register
+	// model of C04 on operator-heavy histories
+	leaseHistories(c, "C14", leasecheck.ModeFencing, c.N(16, 400), 0.5)
 }
